@@ -22,7 +22,10 @@ LEVEL = ("error discipline and accounting over all paths: no value whose static 
          "response gets a status branch in the template; every operation is attached to a provably non-empty list of collections; the "
          "error lists are concatenated up to the CLI and the collections that carry the per-operation diagnostics are handed on entire "
          "(accumulator -> result of from_data -> GeneratorData, no filtered copy, no removal); the method list equals the Operation "
-         "fields of PathItem.")
+         "fields of PathItem; one iteration over enumerated items reads its own item only, never another entry of the collection it "
+         "goes through; the mapping handed to GeneratorData.from_dict is, entire, what the loading call returned.  Comprehensions over "
+         "document items are read as the loops they abbreviate (a per-item local function / private helper as the loop body); a "
+         "generator's `yield` hands a value on like `return`.")
 
 # wrappers that hand the elements of their argument(s) on unchanged
 _ELEMENTWISE = {"enumerate", "sorted", "list", "tuple", "reversed", "chain", "itertools.chain", "iter"}
